@@ -493,7 +493,7 @@ def gen_spawn_batch(rng, pop, spawn, which):
     t = rng.randrange(10)
     if t < 5:        # truncated command at the end of the stream
         cut = rng.choice(["delnum", "mid", "sender", "recip"])
-        cmds.append({"delnum": rng.randrange(spawn), "mid": b"1/2", "sender": b"s999@s.test", "recip": b"t@local.test",
+        cmds.append({"delnum": rng.randrange(spawn), "mid": b"1/2", "sender": b"s%d@s.test" % len(cmds), "recip": b"t@local.test",
                      "complete": False, "cut": cut})
     return cmds
 
